@@ -565,9 +565,21 @@ impl<'a> VisitMut for Norm<'a> {
                 self.loop_no += 1;
                 let n = self.loop_no;
                 self.visit_expr_mut(&mut f.expr);
+                // R-ITER(for-ref), opt-in (`@opt forref`): `for P in &E` is `for P in E.iter()` for every std collection
+                let mut forref = false;
+                if self.spec.opts.contains("forref") {
+                    if let Expr::Reference(r) = &*f.expr {
+                        if r.mutability.is_none() {
+                            let inner = &r.expr;
+                            *f.expr = parse_quote!(#inner.vx_iter());
+                            self.bump("R-ITER(for-ref)");
+                            forref = true;
+                        }
+                    }
+                }
                 // iterator chain in head position
                 let mut chain = Self::is_iter_chain(&f.expr);
-                if let Expr::MethodCall(mc) = &mut *f.expr {
+                if let (false, Expr::MethodCall(mc)) = (forref, &mut *f.expr) {
                     if mc.args.is_empty() && mc.method == "vx_iter" {
                         mc.method = Ident::new("iter", mc.method.span());
                         chain = false;
